@@ -403,6 +403,13 @@ func (z *ZodMap[T, R]) extractType(value any, ctx *core.ParseContext) (map[any]a
 			return converted, nil
 		}
 	}
+	// A pointer to a map of another type (*map[string]string): convert the
+	// map it points to.
+	if rv := reflect.ValueOf(value); rv.Kind() == reflect.Pointer && !rv.IsNil() && rv.Elem().Kind() == reflect.Map {
+		if converted, err := mapx.ToGeneric(rv.Elem().Interface()); err == nil && converted != nil {
+			return converted, nil
+		}
+	}
 	return nil, issues.CreateInvalidTypeErrorWithInst(core.ZodTypeMap, value, ctx, &z.internals.ZodTypeInternals)
 }
 
